@@ -57,6 +57,10 @@ MUTANTS = [
      "        substream = BytesIOWithOffsets.from_reading(stream, length, path)\n        return self.subcon._parsereport(stream, context, path)\n\n    def _build(self, obj, stream, context, path):\n        stream2 = io.BytesIO()"),
     ('prefixed-build-len', 'C03', CORE, "        length = len(data)\n        if self.includelength:\n            length += self.lengthfield._sizeof(context, path)", "        length = len(data) + 1\n        if self.includelength:\n            length += self.lengthfield._sizeof(context, path)"),
     ('fixedsized-build-pad', 'C03', CORE, "        stream_write(stream, bytes(pad), pad, path)", "        stream_write(stream, bytes(pad-1), pad-1, path)"),
+    ('select-swallows-explicit', 'C13', CORE, "                obj = sc._parsereport(stream, context, path)\n            except ExplicitError:\n                raise\n            except Exception:", "                obj = sc._parsereport(stream, context, path)\n            except Exception:"),
+    ('greedyrange-swallows-explicit', 'C13', CORE, "        except StopFieldError:\n            pass\n        except ExplicitError:\n            raise\n        except Exception:\n            if fallback is None:", "        except StopFieldError:\n            pass\n        except Exception:\n            if fallback is None:"),
+    ('peek-swallows-explicit', 'C13', CORE, "            return self.subcon._parsereport(stream, context, path)\n        except ExplicitError:\n            raise\n        except ConstructError:", "            return self.subcon._parsereport(stream, context, path)\n        except ConstructError:"),
+    ('select-build-swallows-explicit', 'C13', CORE, "                data = sc.build(obj, **context)\n            except ExplicitError:\n                raise\n            except Exception:", "                data = sc.build(obj, **context)\n            except Exception:"),
     ('sbib-order', 'C10', BIN, "for i in reversed(range(0,len(data),8)))", "for i in range(0,len(data),8))"),
     ('b2b-mod', 'C10', BIN, "if len(data) % 8 != 0:\n        raise ValueError(f\"data length {len(data)} must be", "if len(data) % 4 != 0:\n        raise ValueError(f\"data length {len(data)} must be"),
 ]
